@@ -258,6 +258,53 @@ func polyvalCases(r *hx.Rng, n int) []string {
 	return out
 }
 
+// nilADCases: "nil and empty associated data are interchangeable" is not expressible in the
+// model (byte strings are lists), so it is decided here, directed: for EVERY scheme, route and
+// prefix variant (and the envelope over every data-key template) an empty AD is passed as nil
+// to Encrypt and as []byte{} to Decrypt (even plaintext length) and the other way round (odd
+// length) — see run; the independent (stdlib) ciphertext computed with a nil AD must decrypt
+// under the other form too.
+func nilADCases(r *hx.Rng) []string {
+	var out []string
+	emit := func(s *Spec) {
+		for _, l := range []int{2 * r.Intn(20), 1 + 2*r.Intn(20)} {
+			iv, iv2 := r.Bytes(s.IVLen()), r.Bytes(s.IVLen())
+			out = append(out, fmt.Sprintf("C01|%s|%s|%s|%s|-", s, hx.H(iv), hx.H(iv2), hx.H(r.Bytes(l))))
+		}
+	}
+	for _, sc := range Schemes {
+		for _, route := range []string{"H", "K", "S"} {
+			variants := map[string][]string{"H": {"T", "C", "L", "R"}, "K": {"T", "C", "R"}, "S": {"R"}}[route]
+			if sc == "xaes" {
+				if route == "S" {
+					continue
+				}
+				variants = []string{"T", "R"}
+			}
+			for _, v := range variants {
+				s := randPlain(r)
+				for s.Scheme != sc {
+					s = randPlain(r)
+				}
+				s.Route, s.Variant = route, v
+				if s.ID == 0 && route == "H" {
+					s.ID = 1 + uint32(r.Intn(1000))
+				}
+				emit(s)
+			}
+		}
+	}
+	for _, dek := range DEKNames {
+		k := randPlain(r)
+		for k.Scheme != "gcm" || k.Route == "S" {
+			k = randPlain(r)
+		}
+		emit(&Spec{Scheme: "env", Route: "E", Variant: k.Variant, ID: k.ID, Key: k.Key, DEK: dek, KEK: k,
+			Params: dek + "~" + k.Scheme + "~" + k.Route + "~" + k.Params})
+	}
+	return out
+}
+
 func gen(r *hx.Rng, n int, tier string) []string {
 	var out []string
 	out = append(out, polyvalCases(r, n/8)...)
@@ -276,6 +323,7 @@ func gen(r *hx.Rng, n int, tier string) []string {
 		s.Key = key
 		out = append(out, fmt.Sprintf("C01|%s|%s|%s|%s|%s", s, hx.H(nonce), hx.H(r.Bytes(12)), hx.H(pt), hx.H(ad)))
 	}
+	out = append(out, nilADCases(r)...)
 	for i := len(out); i < n; i++ {
 		s := RandSpec(r)
 		max := 300
